@@ -131,4 +131,12 @@ CLAIMS["C12"] = {
     "design_ref": "DESIGN.md §2.3, §3 C12",
 }
 
+CLAIMS["C10"] = {
+    "technique": "rapid-generated deadline/idle/inject/read histories run in parallel on five connection types on the real clock (both GODEBUG timer semantics), timestamp oracle",
+    "engine": "rapid-models",
+    "text": "Generated-input search: each history of SetReadDeadline(zero|past|+8..30 ms|+10 s), idle periods, data arrivals and reads (at most one outstanding, optionally left parked while later steps run) is executed on packetio.Buffer, a dpipe end, a udp listener connection over a real socket, a vnet UDPConn behind a router and a Bridge endpoint, under GODEBUG=asynctimerchan=1 and =0. From monotonic timestamps and the list of deadlines in force during each call: a timeout is legal only if a non-zero deadline in force had passed at return; data is illegal once a read has timed out under the same unchanged deadline; an outstanding read is released within 2 s of its deadline, or by data when none is pending. Exploration only, real time.",
+    "note": "The runtime never fires timers early, so 'no early timeout' cannot be falsified by load; 'timeouts persist' is asserted logically (after a timeout has been observed under the same deadline) or with a 300 ms margin; liveness margins of 2-3 s. Sub-microsecond earliness could be missed.",
+    "design_ref": "DESIGN.md §3 C10",
+}
+
 PENDING_REASON = "check not built yet in this revision of /verif (planned, see DESIGN.md §3); nothing is claimed for it"
